@@ -37,3 +37,17 @@ def text_content_arg(s, **kw):
     from odfdo.list import ListItem
     li = ListItem(s)
     return li.text_content != s, f"ListItem({s!r}).text_content == {li.text_content!r}"
+
+
+def attr_joint(s, with_body, cls, names, elems, extra=None, **kw):
+    from odfdo import Paragraph
+    C = _cls(cls)
+    args = {p: s + chr(97 + i) for i, p in enumerate(names)}
+    if with_body:
+        for p in elems:
+            args[p] = Paragraph("body")
+    args.update(extra or {})
+    e = C(**args)
+    again = Element.from_tag(e.serialize(with_ns=True))
+    bad = [(p, getattr(e, p), getattr(again, p)) for i, p in enumerate(names) if getattr(e, p) != s + chr(97 + i) or getattr(again, p) != s + chr(97 + i)]
+    return bool(bad) or type(again) is not type(e), f"{cls}(**{ {k: (v if isinstance(v, str) else '<element>') for k, v in args.items()} }): wrong (param, property, after re-parse): {bad}: {e.serialize()}"
